@@ -31,12 +31,14 @@ type Exec struct {
 	divCache    map[string][2]Term
 	mulSeen     map[string]bool
 	frameOn     bool
+	prune       bool
+	clsStructs  map[*types.Named]bool
 	frameTs     []modTarget
 }
 
 func (e *Engine) NewExec(unit string) *Exec {
 	return &Exec{E: e, C: NewCtx(unit), baseSyms: map[string]Term{}, mapValSorts: map[string]Sort{},
-		oblCount: map[string]int{}, safety: true, noted: map[string][]notedAddr{}, notedSeen: map[string]bool{}, divCache: map[string][2]Term{}, mulSeen: map[string]bool{}}
+		oblCount: map[string]int{}, safety: true, noted: map[string][]notedAddr{}, notedSeen: map[string]bool{}, divCache: map[string][2]Term{}, mulSeen: map[string]bool{}, clsStructs: map[*types.Named]bool{}}
 }
 
 func (x *Exec) initialState() *State {
@@ -338,6 +340,15 @@ func (x *Exec) block(fr *frame, b *ssa.BasicBlock, s *State) {
 			c := x.operand(fr, s, in.Cond).L[0]
 			ct := x.C.Define("br", And(s.Reach, c))
 			cf := x.C.Define("br", And(s.Reach, Not(c)))
+			if x.prune {
+				// narrow-precondition units: drop branches the precondition rules out
+				if x.C.QuickUnsat(ct) {
+					ct = False
+				}
+				if x.C.QuickUnsat(cf) {
+					cf = False
+				}
+			}
 			x.addEdge(fr, b, b.Succs[0], s, ct)
 			x.addEdge(fr, b, b.Succs[1], s.Clone(), cf)
 			return
@@ -571,16 +582,28 @@ func (x *Exec) instr(fr *frame, s *State, in ssa.Instruction) {
 		} else {
 			d.fnv = x.operand(fr, s, in.Call.Value)
 		}
+		d.guard = True
 		s.Defers = append(s.Defers, d)
 	case *ssa.RunDefers:
 		ds := s.Defers
 		s.Defers = nil
 		for i := len(ds) - 1; i >= 0; i-- {
 			d := ds[i]
-			x.callCommon(fr, s, &d.call.Call, d.fnv, d.args, nil, d.call.Pos())
-			if s.Reach.S == "false" {
-				return
+			if d.guard.S == "true" {
+				x.callCommon(fr, s, &d.call.Call, d.fnv, d.args, nil, d.call.Pos())
+				if s.Reach.S == "false" {
+					return
+				}
+				continue
 			}
+			// conditional defer: run it on a copy under its guard and merge
+			taken := s.Clone()
+			taken.Reach = x.C.Define("br", And(s.Reach, d.guard))
+			skipped := s.Clone()
+			skipped.Reach = x.C.Define("br", And(s.Reach, Not(d.guard)))
+			x.callCommon(fr, taken, &d.call.Call, d.fnv, d.args, nil, d.call.Pos())
+			m := x.merge([]edge{{st: taken, cond: taken.Reach}, {st: skipped, cond: skipped.Reach}})
+			*s = *m
 		}
 	case *ssa.Send:
 		x.C.Abstracted["channel send (no blocking semantics)"]++
